@@ -30,6 +30,18 @@ CHECKS = {
  "C18": dict(engine="X", technique=X, design="4/C18",
    text="len(f) == end-start+1 for any start; Feature.sequence against the pyfaidx slicing contract for every sequence over ACGTN up to length 4 (thorough 5), every 1 <= start <= end, every strand/use_strand; bed12 (id or Feature argument, name present/absent, 0-2 exons anywhere in a small window, 0-1 CDS) yields the twelve fields of the statement or ValueError exactly when the ascending blocks do not begin/end at the feature's ends; convert.to_bed12 agrees on the common core.",
    note="bed12 coordinates range over a finite window (str(int) concretises); exons with equal starts and nested blocks reaching beyond the feature are outside the claim; fakefasta stands in for pyfaidx (replay uses real pyfaidx)."),
+ "C07": dict(engine="X", technique=X.replace(" over pure-Python stand-ins for sqlite/files/json", " (plus a model of urllib.parse.unquote)"), design="4/C07",
+   text="A writer model renders attribute columns for all 36 dialect skeletons (3 key/value styles x 3 field separators x trailing semicolon x comma-list/repeated keys) and four shapes (two attributes, a multi-valued key, a valueless flag, a single attribute) with ARBITRARY value characters chosen by the solver; the real _split_keyvals must return the written values in order and the written dialect, and the real _reconstruct must give the text back byte for byte. Line level: feature_from_line / str(Feature) with arbitrary seqid/type/strand characters, '.'/decimal coordinates, 0-2 extra columns, and the strict=False blank-separated law. Confirmed over all CrossHair paths; counterexamples replayed on the real parser.",
+   note="Values: 1 arbitrary character per position in the quick tier (1-2 characters and two arbitrary values in thorough); keys from a finite \\w alphabet. Outside the grammar by the parser's documented heuristics (see DESIGN C07): leading-blank values, strip()-able ends of unquoted values, a valueless flag in FIRST position, empty coordinate columns. Trusts the unquote model and the two CrossHair patches in vlib/xh_patches.py (every counterexample is replayed on the unpatched interpreter)."),
+ "C08": dict(engine="X", technique=X.replace(" over pure-Python stand-ins for sqlite/files/json", " (plus a model of urllib.parse.unquote)"), design="4/C08",
+   text="(a) _split_keyvals terminates without raising and yields lists of str for EVERY Unicode string up to length 3 (thorough 4), inferred and supplied-dialect branches, partitioned over the class of the first character. (b) For every gff3-style dialect dictionary (3 separators x trailing x repeated keys x quoted = 24) and 12 GTF-style ones, printing a mapping (keys incl. '.' and '-', values arbitrary Unicode characters; restricted as stated for GTF) with _reconstruct and re-parsing with that dialect returns the same mapping, the text has no tab/line break, printing is repeatable and leaves the mapping untouched; at line level the printed Feature is one line of 9+n columns and feature_from_line gives the same columns and mapping for tab, newline, %, ;, =, &, comma, control, quote and non-ASCII values.",
+   note="Length bounds as stated (longer strings outside); unquote modelled for %00-%7F only (totality asserts only type/termination); keys from a finite alphabet."),
+ "C09": dict(engine="X", technique=X, design="4/C09",
+   text="Per line: for all 36 skeletons the inferred dialect equals the one the writer used (fmt, both separators, quoting, trailing semicolon, repeated keys, first-seen key order) for arbitrary value characters. Vote: the real _choose_dialect on 0-3 features with all weights 0..3 and every assignment of two competing values per key equals the weighted majority with ties to the first seen, order = first-seen keys. File level: 3-line files whose lines are written in one of two dialects (incl. GTF/GFF3 mixtures) for every checklines 0..4, path and from_string: DataIterator.dialect, FeatureDB.dialect and the GFF3-vs-GTF import semantics follow the inspected window; a supplied dialect is reported verbatim.",
+   note="Bounds: 3 lines / 3 voters; stand-ins fakefs, simsql, jsonbox, bins_stub, unquote model; observability assumption of the statement (>= 2 attributes per line) built into the writer."),
+ "C14": dict(engine="X", technique=X, design="4/C14",
+   text="Every interleaving of 3 (thorough 4) lines drawn from {directive, comment, blank, feature, ##FASTA, >header, bare ###} with every checklines value, as a path and as from_string, with and without a supplied dialect: DataIterator.directives after iteration, db.directives after import and after reopening the database equal the '##' lines before the FASTA marker in order; the number of features equals the feature lines before the marker.",
+   note="Bounds: 3/4 lines, 7 line kinds; fakefs/simsql/jsonbox stand-ins (reopen = new FeatureDB over the committed simsql store); counterexamples replayed with real files and real sqlite3."),
 }
 NA = {}
 def main():
